@@ -29,6 +29,10 @@ func main() {
 		}
 	case "selftest":
 		os.Exit(checks.SelfTest())
+	case "c08":
+		os.Exit(checks.C08Sub(os.Args[2:]))
+	case "c09":
+		os.Exit(checks.C09Sub(os.Args[2:]))
 	case "worker":
 		fs := flag.NewFlagSet("worker", flag.ExitOnError)
 		tier := fs.String("tier", "quick", "")
